@@ -95,3 +95,20 @@ def c05(run):
     run.assumptions += [BOUNDED, STD_GUARD,
                         "trim_matches (both ends) is compared only where trimming start-then-end and end-then-start "
                         "agree (std offers it only for such patterns)"]
+
+
+# ------------------------------------------------------------------------------------------- C02
+@check("C02", rule="one case = (operation, element kind, slice length, index or index pair); non-trivial = at least "
+                    "one index within len+2 of the length or at an isize/usize boundary; every case runs on the "
+                    "shared and the _mut variant and on element types u8, u16, [u64;3], String and ()")
+def c02(run):
+    q = run.tier == "quick"
+    out = vec("C02-SliceIndex.ndjson")
+    run.mc("MC_SliceIndex", "SliceIndex.quick.cfg" if q else "SliceIndex.thorough.cfg", env={"OUT": out},
+           need_actions=("Guard", "AfterUnsafe", "Chain", "Direct"), heap="8g", timeout=3000)
+    run.sample_file(out)
+    run.replay([out], "SliceIndex vectors")
+    run.record_and_validate("SliceIndex", "Trace_SliceIndex", "Trace_SliceIndex.cfg",
+                            n_files=4 if q else 16, n_events=5000 if q else 20000)
+    run.assumptions += [W8, BOUNDED, STD_GUARD,
+                        "zero-sized elements: only the length of a result is observable, offsets are not compared"]
